@@ -181,7 +181,8 @@ def generate(rng, tier):
                   "b": gen_operand(rng, live, ncolors, allow_boom=boom)}
         elif r < 0.53:
             op = {"op": "join", "dst": dst, "sep": rng.choice(sorted(live)),
-                  "items": [gen_operand(rng, live, ncolors) for _ in range(rng.randint(0, 4))]}
+                  "items": [gen_operand(rng, live, ncolors) for _ in range(rng.randint(0, 4))],
+                  "items_as": rng.choice(["list", "list", "gen", "tuple", "iter"])}
         elif r < 0.60:
             op = {"op": "index", "dst": dst, "a": rng.choice(sorted(live)), "i": rng.choice([0, 1, 2, 4, 7, 12, -1, -2, -5, -13, 30, -30])}
         elif r < 0.74:
@@ -570,6 +571,13 @@ def apply(w, op):
         if len(out) > w.max_cells:
             return
         items = [w.real_operand(it) for it in op["items"]]
+        how = op.get("items_as")
+        if how == "gen":
+            items = (x for x in items)          # "iterable": a generator can be walked once only
+        elif how == "tuple":
+            items = tuple(items)
+        elif how == "iter":
+            items = iter(items)
         try:
             x = w.real[op["sep"]].join(items)
         except Exception as e:
